@@ -267,7 +267,7 @@ void rq_gen_geometry (vf_rng *r, rq_request *q, unsigned profile)
     /* try to make an untransformed / scaled bits source cover everything it is sampled at */
     q->cover = 0;
     rq_image *s = &q->src;
-    if (s->kind == RQ_BITS && s->tr_class <= TR_SCALE_ANY && vf_chance (r, 1, 2) && q->w > 0 && q->h > 0) {
+    if (s->kind == RQ_BITS && s->tr_class <= TR_ROT270 && vf_chance (r, 1, 2) && q->w > 0 && q->h > 0) {      /* quarter turns map boxes onto boxes too */
         pixman_vector_t c[2] = { { { pixman_int_to_fixed (q->sx), pixman_int_to_fixed (q->sy), 65536 } }, { { pixman_int_to_fixed (q->sx + q->w), pixman_int_to_fixed (q->sy + q->h), 65536 } } };
         if (s->tr_class != TR_NONE) { pixman_transform_point (&s->tr, &c[0]); pixman_transform_point (&s->tr, &c[1]); }
         int x0 = pixman_fixed_to_int (c[0].vector[0] < c[1].vector[0] ? c[0].vector[0] : c[1].vector[0]) - 2, x1 = pixman_fixed_to_int (c[0].vector[0] > c[1].vector[0] ? c[0].vector[0] : c[1].vector[0]) + 3;
